@@ -128,6 +128,12 @@ func generate(w *world, prop string, fnFilter string) *runResult {
 			rr.unbound = append(rr.unbound, shortPkg(fc.pkgPath)+"."+fc.key)
 			continue
 		}
+		if !contractMatches(fc, fn) {
+			// signature changed under the contract: the contract is stale; report it as
+			// unbound (callers of fn no longer use it and check fn's effects directly)
+			rr.unbound = append(rr.unbound, shortPkg(fc.pkgPath)+"."+fc.key+" (stale: signature differs from the contract header)")
+			continue
+		}
 		res := w.verifyFunc(fn, fc)
 		rr.funcs = append(rr.funcs, res)
 		if len(res.errs) > 0 {
@@ -229,7 +235,7 @@ func runCheck(cmd, prop, tier, fnFilter, oblFilter string, verbose bool) int {
 		}
 		return 0
 	}
-	timeout := 20
+	timeout := 45
 	all := false
 	if tier == "thorough" {
 		timeout = 120
